@@ -61,6 +61,26 @@ MC_BODY = "INIT Init\nNEXT Next\nVIEW View\nCHECK_DEADLOCK FALSE\n" + "".join(f"
 GEN_BODY = "INIT Init\nNEXT Next\nCONSTRAINT Emit\nCHECK_DEADLOCK FALSE\n"
 
 
+def handler_progress(wd, res, cov, seed, quick):
+    """C02 at the API: requests through the real handlers (scheduleRunner is the scheduler's caller), half of them abandoned
+    by their client; a patient request that gets no answer, or a runner still listed at the end, is a violation."""
+    out_path = os.path.join(wd, "progress.ndjson")
+    rc, out = vf.go_test2("./server", "^TestVFHandlerProgress$", wd, vf.harness_overlay(["server"]),
+                          env=dict(VF_OUT=out_path, VF_SEED=str(seed), VF_ROUNDS="3" if quick else "12"), timeout=1500)
+    recs = vf.read_ndjson(out_path) if os.path.exists(out_path) else []
+    if (rc != 0 or "VF replayed=" not in out) and not any(r["ev"] == "unanswered" for r in recs):
+        raise vf.Inconclusive("harness TestVFHandlerProgress failed:\n" + out[-3000:])
+    rounds = [r for r in recs if r["ev"] == "round"]
+    cov["handler_progress"] = {"rounds": len(rounds), "requests": {k: sum(r["counts"].get(k, 0) for r in rounds) for k in sorted({k for r in rounds for k in r["counts"]})},
+                               "runners_started": sum(r["runners_started"] for r in rounds), "runners_closed": sum(r["runners_closed"] for r in rounds)}
+    bad = [r for r in recs if r["ev"] == "unanswered"]
+    bad += [dict(r, ev="still-loaded") for r in rounds if r["loaded_at_end"] != 0 or r["runners_started"] != r["runners_closed"]]
+    if bad:
+        p = vf.save_replay("C02", f"handler-progress-{seed}.ndjson", "".join(json.dumps(r) + "\n" for r in bad))
+        kinds = sorted({r["ev"] for r in bad})
+        res.violation(f"API workload with abandoned requests (seed {seed}): {kinds}: {json.dumps(bad[0])[:400]}", p)
+
+
 def run(prop, tier="quick", seed=1, replay=None):
     t0 = time.time()
     res = vf.Result(prop)
@@ -146,6 +166,8 @@ def run(prop, tier="quick", seed=1, replay=None):
         cov["violation_kinds"] = {",".join(k): n for k, n in shown.items()}
         if other:
             res.note(f"flags of the sibling scheduler properties seen in this run (reported by their own checks): {other}")
+        if prop == "C02" and not replay:
+            handler_progress(wd, res, cov, seed, quick)
         cov["checker_cmd"] = "tlc Sched.tla (MC per configuration) ; tlc Trace_Sched.tla"
     vf.write_evidence(prop, tier, seed, "model_checking", cov, time.time() - t0, violations=len(res.violations),
                       assumptions=["fake LlamaServers (load result, ping, Close controlled by the driver), one 'metal' GPU",
